@@ -13,6 +13,14 @@ class Unclassifiable(Exception):
     pass
 
 
+class RegistrationDependent(Unclassifiable):
+    """the relation between two classes is read from a list that only holds what registration records name"""
+    pass
+
+
+LISTED_SETS = ("transitive_bases", "direct_bases", "direct_derived")
+
+
 def _roles(fn):
     """iterator variables -> 'A' / 'B' (initialised from <param0>->vp.begin() / <param1>->vp.begin())."""
     params = [p["did"] for p in fn["params"]]
@@ -78,7 +86,30 @@ def _eval_cond(n, roles, rel):
                     raise Unclassifiable("find argument: " + astq.text(n))
                 isin = _isin(elem, owner, rel)
                 return isin if n["oop"] == "!=" else not isin
+            # std::find(owner->S.begin(), owner->S.end(), elem) != owner->S.end()
+            if x.get("k") == "CallExpr" and (x.get("callee") or "").startswith("std::find<") and len(x.get("c") or []) >= 4 and y.get("k") == "CXXMemberCallExpr" and (y.get("callee") or "").endswith("::end"):
+                b = astq.strip(x["c"][1])
+                if b.get("k") == "CXXMemberCallExpr" and (b.get("callee") or "").endswith("::begin"):
+                    member = _member(b, roles)
+                    member2 = _member(y, roles)
+                    elem = _role_of(x["c"][3], roles)
+                    if member is None or member2 is None or member[0] != member2[0] or elem is None:
+                        raise Unclassifiable("std::find over " + astq.text(n))
+                    isin = _isin(elem, member[0], rel)
+                    return isin if n["oop"] == "!=" else not isin
         raise Unclassifiable("operator " + astq.text(n))
+    if k == "CallExpr" and n.get("callee") in (roles.get("__funcs__") or {}) and roles.get("__depth__", 0) < 2:
+        # a helper predicate of the compiler: evaluate its single return expression with the arguments' roles
+        g = roles["__funcs__"][n["callee"]]
+        gs = [st for st in (g["body"].get("c") or []) if st.get("k") != "NullStmt"]
+        if len(gs) == 1 and gs[0].get("k") == "ReturnStmt" and gs[0].get("c"):
+            r2 = {"__funcs__": roles["__funcs__"], "__depth__": roles.get("__depth__", 0) + 1}
+            for p_, a_ in zip(g["params"], n["c"][1:]):
+                ra = _role_of(a_, roles)
+                if ra:
+                    r2[("val", p_["did"])] = ra
+            return _eval_cond(gs[0]["c"][0], r2, rel)
+        raise Unclassifiable("helper " + n["callee"].split("::")[-1] + " is not a single return expression")
     if k == "CXXMemberCallExpr" and (n.get("callee") or "").endswith("::count"):
         member = _member(n, roles)
         if member and member[1]:
@@ -89,6 +120,9 @@ def _eval_cond(n, roles, rel):
 def _member(call, roles):
     """(owner role, element role) of <owner>->covariant_classes.find(<elem>) / .end() / .count(<elem>)"""
     callee = call["c"][0]
+    listed = [x["member"] for x in astq.walk(callee) if x.get("k") == "MemberExpr" and x.get("member") in LISTED_SETS]
+    if listed:
+        raise RegistrationDependent(listed[0])
     if not any(x.get("k") == "MemberExpr" and x.get("member") == "covariant_classes" for x in astq.walk(callee)):
         return None
     owner = None
@@ -159,13 +193,14 @@ def order_table(fn, funcs_by_name=None, swap=False, depth=0):
                 final = "true" if e.get("v") else "false"
     if flag is None or init is None or loop is None or final is None:
         raise Unclassifiable("shape of " + fn["name"])
+    roles["__funcs__"] = funcs_by_name or {}
     # the loop must advance both iterators together
     inc = loop.get("inc")
     adv = set()
     for x in astq.walk(inc) if inc else []:
         if x.get("k") in ("CXXOperatorCallExpr", "UnaryOperator") and (x.get("oop") == "++" or x.get("op") == "++"):
             for y in astq.walk(x):
-                if y.get("k") == "DeclRefExpr" and y["ref"]["did"] in roles:
+                if y.get("k") == "DeclRefExpr" and y["ref"]["did"] in roles and isinstance(roles[y["ref"]["did"]], str):
                     adv.add(roles[y["ref"]["did"]])
     if adv != {"A", "B"}:
         raise Unclassifiable("loop does not advance both iterators")
